@@ -3082,7 +3082,7 @@ fn call_strategy(ops: Vec<usize>) -> BoxedStrategy<Case> {
                 if u.p {
                     c.p = raw.p;
                 }
-                if u.lnx && c.x.sig.neg && sel % 4 != 0 {
+                if u.lnx && c.x.sig.neg && (sel >> 20) % 4 != 0 {
                     c.x.sig.neg = false;
                 }
                 clamp_counts(&mut c, &u);
